@@ -115,7 +115,8 @@ claim("C05", "DESIGN.md section 4 C04/C05 + section 11",
 claim("C06", "DESIGN.md section 4 C06 + section 11",
       "proof: Coq theorems over the executable model of resolve_syntatic_sugar (with fix F17): sugar_sem (every backend, environment and nesting: single-for comprehensions lower to Where/Select chains "
       "that mean what Python computes, against Base/Eval.v, itself compared with CPython on each run), sugar_complete (no comprehension node left at any depth), dataclass_binds (= an independent "
-      "specification of Python's positional-then-keyword binding: same bindings or both refuse), sugar_refuses (tuple targets / async => ValueError), sugar_total (never an internal error on "
+      "specification of Python's positional-then-keyword binding: same bindings or both refuse), starred_constructor_argument_refused (F58: a starred positional argument is refused, "
+      "never bound to one field), sugar_refuses (tuple targets / async => ValueError), sugar_total (never an internal error on "
       "well-formed generators); the pinned binding is refuted inside Coq. Multi-for comprehensions and error messages are compared, not claimed; constructor parameters assumed positional-or-keyword.",
       "Hypothesis of sugar_sem: the operator list contains Select and Where. Generator expressions are forced eagerly. CPython 3.12.1's PEP 709 inlining corner cases are excluded from the semantic comparison and counted.")
 
